@@ -78,6 +78,15 @@ def build_harness(profile="release"):
         return _built[profile]
     env = dict(os.environ)
     env["CARGO_NET_OFFLINE"] = "true"
+    # VERIF_REPO: build against another copy of the repository (used only by bin/matrix.sh in a vp-run snapshot;
+    # the registered checks always use /repo)
+    alt = os.environ.get("VERIF_REPO")
+    if alt and alt != "/repo":
+        ct = os.path.join(HARNESS, "Cargo.toml")
+        txt = open(ct).read()
+        new = re.sub(r'acpi_tables = \{ path = "[^"]*" \}', 'acpi_tables = { path = "%s" }' % alt, txt)
+        if new != txt:
+            open(ct, "w").write(new)
     cmd = ["cargo", "build", "--offline", "--quiet"]
     cmd += ["--release"] if profile == "release" else ["--profile", profile]
     t = time.time()
